@@ -1027,6 +1027,16 @@ func c09GenPartial(r *Rng, in *C09Input) {
 		if !has {
 			in.Allowed = append([]int{r.Intn(in.N)}, in.Allowed...)
 		}
+		// the client may list the allowed states in any order: the tracked
+		// order is the source's all the same
+		if r.Chance(50) {
+			pm := r.Perm(len(in.Allowed))
+			sh := make([]int, len(in.Allowed))
+			for i, j := range pm {
+				sh[i] = in.Allowed[j]
+			}
+			in.Allowed = sh
+		}
 	}
 	if !in.UseAllow || r.Chance(40) {
 		in.Skipped = r.Subset(in.N+1, 30)
